@@ -1,4 +1,4 @@
-import KV.Proofs.TxPoolList
+import KV.Proofs.TxPoolDisj
 /-!
 # C17 — the transaction pool only offers executable transactions and respects its limits
 
@@ -24,110 +24,6 @@ namespace KV.TxPool
 open TxList
 
 /-! ## 1. caps are bounds -/
-
-/-- what every reachable list satisfies -/
-def TxList.WF (l : TxList) : Prop := Sorted l.txs ∧ Bounded l
-
-theorem wf_new (strict : Bool) : (TxList.new strict).WF := by
-  simp [TxList.WF, TxList.new, Sorted, Bounded]
-
-theorem bounded_sub {l l' : TxList} (hb : Bounded l) (hs : ∀ t ∈ l'.txs, t ∈ l.txs)
-    (hc : l.costcap ≤ l'.costcap) (hg : l.gascap ≤ l'.gascap) : Bounded l' := by
-  intro t ht
-  have := hb t (hs t ht)
-  omega
-
-theorem bounded_put {l : TxList} (t : Tx) (hb : Bounded l) :
-    Bounded { l with txs := put t l.txs, costcap := max l.costcap t.cost, gascap := max l.gascap t.gas } := by
-  intro x hx
-  simp only at hx ⊢
-  rcases mem_put hx with hx | hx
-  · subst hx; omega
-  · have := hb x hx; omega
-
-theorem wf_add (l : TxList) (t : Tx) (bump : Nat) (h : l.WF) : (l.add t bump).1.WF := by
-  obtain ⟨hs, hb⟩ := h
-  unfold TxList.add
-  simp only
-  split
-  · split
-    · exact ⟨put_sorted hs, bounded_put t hb⟩
-    · exact ⟨hs, hb⟩
-  · exact ⟨put_sorted hs, bounded_put t hb⟩
-
-theorem wf_forward (l : TxList) (th : Nat) (h : l.WF) : (l.forward th).1.WF := by
-  obtain ⟨hs, hb⟩ := h
-  refine ⟨sorted_filter _ hs, bounded_sub hb ?_ (Nat.le_refl _) (Nat.le_refl _)⟩
-  intro t ht
-  exact List.filter_sublist.subset ht
-
-theorem wf_cap (l : TxList) (k : Nat) (h : l.WF) : (l.cap k).1.WF := by
-  obtain ⟨hs, hb⟩ := h
-  unfold TxList.cap
-  split
-  · exact ⟨hs, hb⟩
-  · refine ⟨sorted_sublist (List.take_sublist _ _) hs, bounded_sub hb ?_ (Nat.le_refl _) (Nat.le_refl _)⟩
-    intro t ht
-    exact List.mem_of_mem_take ht
-
-theorem wf_remove (l : TxList) (n : Nat) (h : l.WF) : (l.remove n).1.WF := by
-  obtain ⟨hs, hb⟩ := h
-  unfold TxList.remove
-  split
-  · exact ⟨hs, hb⟩
-  · split
-    · refine ⟨sorted_filter _ (sorted_filter _ hs), bounded_sub hb ?_ (Nat.le_refl _) (Nat.le_refl _)⟩
-      intro t ht
-      exact List.filter_sublist.subset (List.filter_sublist.subset ht)
-    · refine ⟨sorted_filter _ hs, bounded_sub hb ?_ (Nat.le_refl _) (Nat.le_refl _)⟩
-      intro t ht
-      exact List.filter_sublist.subset ht
-
-theorem wf_ready (l : TxList) (start : Nat) (h : l.WF) : (l.ready start).1.WF := by
-  obtain ⟨hs, hb⟩ := h
-  unfold TxList.ready
-  split
-  · exact ⟨hs, hb⟩
-  · split
-    · exact ⟨hs, hb⟩
-    · rename_i t ts heq _
-      have happ := run_append t.nonce l.txs
-      refine ⟨sorted_sublist ?_ hs, bounded_sub hb ?_ (Nat.le_refl _) (Nat.le_refl _)⟩
-      · simp only
-        have : ((run t.nonce l.txs).2).Sublist ((run t.nonce l.txs).1 ++ (run t.nonce l.txs).2) :=
-          List.sublist_append_right _ _
-        rwa [happ] at this
-      · intro x hx
-        simp only at hx
-        rw [← happ]
-        exact List.mem_append_right _ hx
-
-theorem not_unpayable {c g : Nat} {t : Tx} (h : (!unpayable c g t) = true) :
-    t.cost ≤ c ∧ t.gas ≤ g := by
-  simp [unpayable] at h
-  omega
-
-theorem wf_filter (l : TxList) (c g : Nat) (h : l.WF) : (l.filter c g).1.WF := by
-  obtain ⟨hs, hb⟩ := h
-  unfold TxList.filter
-  split
-  · exact ⟨hs, hb⟩
-  · simp only
-    split
-    · refine ⟨sorted_filter _ hs, ?_⟩
-      intro t ht
-      simp only [List.mem_filter] at ht
-      exact not_unpayable ht.2
-    · split
-      · refine ⟨sorted_filter _ (sorted_filter _ hs), ?_⟩
-        intro t ht
-        simp only [List.mem_filter] at ht
-        exact not_unpayable ht.1.2
-      · refine ⟨sorted_filter _ hs, ?_⟩
-        intro t ht
-        simp only [List.mem_filter] at ht
-        exact not_unpayable ht.2
-
 theorem wf_apply (l : TxList) (op : TxList.Op) (h : l.WF) : (l.apply op).WF := by
   cases op with
   | add t b => exact wf_add l t b h
@@ -220,17 +116,6 @@ theorem filter_sound (l : TxList) (hb : Bounded l) (c g : Nat) :
       · refine ⟨fun t ht => hkeep t ht, fun x hx => hrem x hx, ?_, ?_, by simp⟩
         · intro t ht h1 h2; exact Or.inl (hpay t ht h1 h2)
         · intro hs; rename_i hns; exact absurd hs hns
-
-theorem filter_sublist_txs (l : TxList) (c g : Nat) : (l.filter c g).1.txs.Sublist l.txs := by
-  unfold TxList.filter
-  split
-  · exact List.Sublist.refl _
-  · simp only
-    split
-    · exact List.filter_sublist
-    · split
-      · exact List.Sublist.trans List.filter_sublist List.filter_sublist
-      · exact List.filter_sublist
 
 theorem mem_removed (l : TxList) (hb : Bounded l) (c g : Nat) (u : Tx) (hu : u ∈ l.txs)
     (hup : ¬(u.cost ≤ c ∧ u.gas ≤ g)) : u ∈ (l.filter c g).2.1 := by
@@ -404,17 +289,6 @@ theorem forward_ready (l : TxList) (start : Nat) :
         rw [← heq']
         exact run_nonces _ _
 
-/-- `Forward th` leaves no nonce below `th` and removes nothing else -/
-theorem forward_spec (l : TxList) (th : Nat) :
-    (∀ t ∈ (l.forward th).1.txs, th ≤ t.nonce ∧ t ∈ l.txs) ∧
-    (∀ t ∈ (l.forward th).2, t.nonce < th ∧ t ∈ l.txs) ∧
-    (∀ t ∈ l.txs, th ≤ t.nonce → t ∈ (l.forward th).1.txs) := by
-  unfold TxList.forward
-  refine ⟨?_, ?_, ?_⟩
-  · intro t ht; simp at ht; exact ⟨by omega, ht.1⟩
-  · intro t ht; simp at ht; exact ⟨ht.2, ht.1⟩
-  · intro t ht h; simp; exact ⟨ht, by omega⟩
-
 /-- `Forward start` then `Ready start`: the promoted run starts exactly at `start` -/
 theorem forward_then_ready (l : TxList) (start : Nat) :
     let r := ((l.forward start).1).ready start
@@ -457,14 +331,199 @@ inductive Reach (cfg : Cfg) (c : Chain) : Pool → Prop where
   | init : Reach cfg c { cfg := cfg, chain := c, gasPrice := cfg.priceLimit }
   | step {p q : Pool} (op : Op) : Reach cfg c p → q ∈ p.succs op → Reach cfg c q
 
-/-- **pool_inv** (statement; NOT proved — established by the oracle on the real pool after every
-operation and by the refinement differential of this model): every state reachable by any
-sequence of submissions (with fresh transaction ids), head resets, price changes and expiries
-satisfies `Inv`.  Missing: the induction over `add`/`promoteExecutables`/`demoteUnexecutables`/
-`truncate*`/`removeTx`, which needs the auxiliary invariants "pending and queue hold disjoint
-nonces per sender" and "virtual nonce = state nonce + |pending|". -/
+/-- **pool_inv** (full statement).  Proved clause by clause below where marked; the clauses
+`pending_gapfree` and `all_listed` are NOT proved (they need the auxiliary invariants "virtual
+nonce = state nonce + |pending|" resp. "ids in `all` are unique and `all` mirrors the lists") and
+are established by the oracle on the real pool after every operation and by the refinement
+differential of this model.  `disjoint` is proved on transactions as values and on nonces
+(`pool_inv_disjoint`); its id form additionally needs id-uniqueness. -/
 def pool_invStatement : Prop :=
   ∀ (cfg : Cfg) (c : Chain) (p : Pool), Reach cfg c p → Inv p
+
+/-! ### proved clauses
+
+`Good (strongPhi p.chain) p` (see `KV/Proofs/TxPoolInv*.lean`) is an invariant of every operation
+of the relational pool model: account maps are key-sorted; every pending and queued list is
+nonce-indexed with caps that dominate its members; members are filed under their sender; no
+pending or queued nonce is below the sender's state nonce; every pending transaction is
+individually affordable from the sender's balance and within the block gas limit.  A head reset
+re-establishes it for the new chain view (promotion forwards/filters every queued account,
+demotion forwards/filters every pending account — `Filter`'s early exit being sound because the
+caps are bounds).  The F12 behaviour (room made before the replacement test) does not affect these
+clauses: `add` keeps the invariant in every branch, including the rejected one. -/
+
+theorem good_init (cfg : Cfg) (c : Chain) :
+    Good (strongPhi c) { cfg := cfg, chain := c, gasPrice := cfg.priceLimit } :=
+  ⟨rfl, by simp [KeysSorted], by simp [KeysSorted], by intro a l h; simp [amGet] at h,
+   by intro a l h; simp [amGet] at h⟩
+
+theorem good_succs {p q : Pool} (h : Good (strongPhi p.chain) p) (op : Op) (hq : q ∈ p.succs op) :
+    Good (strongPhi q.chain) q := by
+  cases op with
+  | addTxs txs loc =>
+    simp only [succs, List.mem_map] at hq
+    obtain ⟨r, hr, he⟩ := hq
+    subst he
+    have := good_addTxs h (strongPhi_PQ _) txs loc r hr
+    rw [this.chain]; exact this
+  | reset c' =>
+    have := good_runReorg_reset h c' [] q hq
+    rw [this.chain]; exact this
+  | setGasPrice pr =>
+    simp only [succs, List.mem_singleton] at hq
+    subst hq
+    have := good_setGasPrice h (strongPhi_PQ _) pr
+    rw [this.chain]; exact this
+  | expire a =>
+    simp only [succs, List.mem_singleton] at hq
+    subst hq
+    have := good_expire h (strongPhi_PQ _) a
+    rw [this.chain]; exact this
+
+/-- every reachable state satisfies the per-list invariant for its current chain view -/
+theorem reach_good {cfg : Cfg} {c : Chain} {p : Pool} (h : Reach cfg c p) :
+    Good (strongPhi p.chain) p := by
+  induction h with
+  | init => exact good_init cfg c
+  | step op _ hq ih => exact good_succs ih op hq
+
+/-- **pool_inv_affordable.** In every reachable state every pending transaction is individually
+affordable from its sender's current balance (value + gas × price), fits the block gas limit and
+is filed under its sender. -/
+theorem pool_inv_affordable {cfg : Cfg} {c : Chain} {p : Pool} (h : Reach cfg c p) :
+    ∀ e ∈ p.pending, ∀ t ∈ e.2.txs,
+      t.cost ≤ p.balance e.1 ∧ t.gas ≤ p.chain.gasLimit ∧ t.sender = e.1 := by
+  intro e he t ht
+  have hg := reach_good h
+  have := (hg.pend e.1 e.2 (amGet_of_mem hg.pkeys he)).2 t ht
+  exact ⟨this.2.2.1, this.2.2.2, this.1⟩
+
+/-- **pool_inv_nonce.** In every reachable state no pending and no queued transaction has a nonce
+below its sender's state nonce (mined / stale transactions are gone), and queued transactions are
+filed under their sender. -/
+theorem pool_inv_nonce {cfg : Cfg} {c : Chain} {p : Pool} (h : Reach cfg c p) :
+    (∀ e ∈ p.pending, ∀ t ∈ e.2.txs, p.stateNonce e.1 ≤ t.nonce) ∧
+    (∀ f ∈ p.queue, ∀ t ∈ f.2.txs, p.stateNonce f.1 ≤ t.nonce ∧ t.sender = f.1) := by
+  have hg := reach_good h
+  refine ⟨?_, ?_⟩
+  · intro e he t ht
+    exact ((hg.pend e.1 e.2 (amGet_of_mem hg.pkeys he)).2 t ht).2.1
+  · intro f hf t ht
+    have := (hg.que f.1 f.2 (amGet_of_mem hg.qkeys hf)).2 t ht
+    exact ⟨this.2, this.1⟩
+
+/-- **pool_inv_wf.** In every reachable state each account has at most one pending and one queued
+entry, and every list is nonce-indexed (strictly increasing nonces: a replaced transaction is
+gone from its list) with `costcap`/`gascap` dominating its members. -/
+theorem pool_inv_wf {cfg : Cfg} {c : Chain} {p : Pool} (h : Reach cfg c p) :
+    KeysSorted p.pending ∧ KeysSorted p.queue ∧
+    (∀ e ∈ p.pending, e.2.WF) ∧ (∀ f ∈ p.queue, f.2.WF) := by
+  have hg := reach_good h
+  exact ⟨hg.pkeys, hg.qkeys,
+    fun e he => (hg.pend e.1 e.2 (amGet_of_mem hg.pkeys he)).1,
+    fun f hf => (hg.que f.1 f.2 (amGet_of_mem hg.qkeys hf)).1⟩
+
+/-- every reachable state keeps pending and queued nonces of each sender apart -/
+theorem reach_ndisj {cfg : Cfg} {c : Chain} {p : Pool} (h : Reach cfg c p) : NDisj p := by
+  induction h with
+  | init => intro a n ⟨l, hl, _⟩ _; simp [amGet] at hl
+  | @step p q op hp hq ih =>
+    have hg := reach_good hp
+    cases op with
+    | addTxs txs loc =>
+      simp only [succs, List.mem_map] at hq
+      obtain ⟨r, hr, he⟩ := hq
+      subst he
+      exact addTxs_ndisj hg (strongPhi_PQ _) ih txs loc r hr
+    | reset c' => exact runReorg_reset_ndisj hg ih c' [] q hq
+    | setGasPrice pr =>
+      simp only [succs, List.mem_singleton] at hq
+      subst hq
+      exact setGasPrice_ndisj hg (strongPhi_PQ _) ih pr
+    | expire a =>
+      simp only [succs, List.mem_singleton] at hq
+      subst hq
+      exact expire_ndisj hg (strongPhi_PQ _) ih a
+
+/-- **pool_inv_disjoint.** In every reachable state no transaction is both pending and queued;
+more strongly, a sender never has the same nonce in its pending and in its queued list (so a
+demoted or replaced transaction never collides with a queued one).  Stated on transactions as
+values; with `pool_inv_affordable`/`pool_inv_nonce` (members are filed under their sender) the
+account-wise nonce form implies the global one. -/
+theorem pool_inv_disjoint {cfg : Cfg} {c : Chain} {p : Pool} (h : Reach cfg c p) :
+    ∀ e ∈ p.pending, ∀ f ∈ p.queue, ∀ t ∈ e.2.txs, ∀ u ∈ f.2.txs,
+      t ≠ u ∧ (e.1 = f.1 → t.nonce ≠ u.nonce) := by
+  intro e he f hf t ht u hu
+  have hg := reach_good h
+  have hn := reach_ndisj h
+  have hpe := amGet_of_mem hg.pkeys he
+  have hqf := amGet_of_mem hg.qkeys hf
+  have key : e.1 = f.1 → t.nonce ≠ u.nonce := by
+    intro hef hnn
+    apply hn e.1 t.nonce ⟨e.2, hpe, t, ht, rfl⟩
+    rw [hef]
+    exact ⟨f.2, hqf, u, hu, hnn.symm⟩
+  refine ⟨?_, key⟩
+  intro htu
+  subst htu
+  have h1 := ((hg.pend e.1 e.2 hpe).2 t ht).1
+  have h2 := ((hg.que f.1 f.2 hqf).2 t hu).1
+  exact key (by rw [← h1, ← h2]) rfl
+
+theorem sorted_nonce_inj {l : List Tx} (hs : Sorted l) {x y : Tx} (hx : x ∈ l) (hy : y ∈ l)
+    (hn : x.nonce = y.nonce) : x = y := by
+  induction l with
+  | nil => simp at hx
+  | cons z zs ih =>
+    unfold Sorted at hs ih
+    rw [List.pairwise_cons] at hs
+    rcases List.mem_cons.mp hx with hx1 | hx1 <;> rcases List.mem_cons.mp hy with hy1 | hy1
+    · rw [hx1, hy1]
+    · subst hx1; have := hs.1 y hy1; omega
+    · subst hy1; have := hs.1 x hx1; omega
+    · exact ih hs.2 hx1 hy1
+
+/-- **pool_inv_one_per_nonce.** In every reachable state the pool holds at most one transaction
+per (sender, nonce): a replaced transaction is gone from both lists. -/
+theorem pool_inv_one_per_nonce {cfg : Cfg} {c : Chain} {p : Pool} (h : Reach cfg c p) :
+    ∀ e ∈ p.pending ++ p.queue, ∀ f ∈ p.pending ++ p.queue, ∀ t ∈ e.2.txs, ∀ u ∈ f.2.txs,
+      t.sender = u.sender → t.nonce = u.nonce → t = u := by
+  have hg := reach_good h
+  have hn := reach_ndisj h
+  intro e he f hf t ht u hu hsnd hnon
+  rcases List.mem_append.mp he with he | he <;> rcases List.mem_append.mp hf with hf | hf
+  · have h1 := amGet_of_mem hg.pkeys he
+    have h2 := amGet_of_mem hg.pkeys hf
+    have k1 := ((hg.pend _ _ h1).2 t ht).1
+    have k2 := ((hg.pend _ _ h2).2 u hu).1
+    have hk : e.1 = f.1 := by rw [← k1, ← k2, hsnd]
+    rw [hk, h2] at h1
+    have he2 : f.2 = e.2 := Option.some.inj h1
+    rw [← he2] at ht
+    exact sorted_nonce_inj (hg.pend _ _ h2).1.1 ht hu hnon
+  · exfalso
+    have h1 := amGet_of_mem hg.pkeys he
+    have h2 := amGet_of_mem hg.qkeys hf
+    have k1 := ((hg.pend _ _ h1).2 t ht).1
+    have k2 := ((hg.que _ _ h2).2 u hu).1
+    have hk : e.1 = f.1 := by rw [← k1, ← k2, hsnd]
+    exact hn e.1 t.nonce ⟨e.2, h1, t, ht, rfl⟩ (hk ▸ ⟨f.2, h2, u, hu, hnon.symm⟩)
+  · exfalso
+    have h1 := amGet_of_mem hg.qkeys he
+    have h2 := amGet_of_mem hg.pkeys hf
+    have k1 := ((hg.que _ _ h1).2 t ht).1
+    have k2 := ((hg.pend _ _ h2).2 u hu).1
+    have hk : f.1 = e.1 := by rw [← k1, ← k2, hsnd]
+    exact hn f.1 u.nonce ⟨f.2, h2, u, hu, rfl⟩ (hk ▸ ⟨e.2, h1, t, ht, hnon⟩)
+  · have h1 := amGet_of_mem hg.qkeys he
+    have h2 := amGet_of_mem hg.qkeys hf
+    have k1 := ((hg.que _ _ h1).2 t ht).1
+    have k2 := ((hg.que _ _ h2).2 u hu).1
+    have hk : e.1 = f.1 := by rw [← k1, ← k2, hsnd]
+    rw [hk, h2] at h1
+    have he2 : f.2 = e.2 := Option.some.inj h1
+    rw [← he2] at ht
+    exact sorted_nonce_inj (hg.que _ _ h2).1.1 ht hu hnon
 
 /-- the empty pool satisfies the invariant -/
 theorem pool_inv_init (cfg : Cfg) (c : Chain) :
